@@ -30,7 +30,7 @@ theorem bytesOf_singleton (c : Char) (h : c.val ≤ 127) : bytesOf (String.singl
     String.utf8EncodeChar_eq_singleton (Char.utf8Size_eq_one_iff.2 h)]
 
 theorem bytesOf_push (s : String) (c : Char) (h : c.val ≤ 127) : bytesOf (s.push c) = bytesOf s ++ [c.val.toUInt8] := by
-  simp [bytesOf, String.toUTF8, String.toByteArray_push, ByteArray.data_append, List.utf8Encode,
+  simp [bytesOf, String.toUTF8, String.toByteArray_push, List.utf8Encode,
     String.utf8EncodeChar_eq_singleton (Char.utf8Size_eq_one_iff.2 h)]
 
 /-- the bytes of the whole text, for `rest`. -/
@@ -69,11 +69,11 @@ theorem digitBytes_range (n : Nat) : ∀ d ∈ digitBytes n, 48 ≤ d ∧ d ≤ 
       rcases this with h | h | h | h | h | h | h | h | h | h <;> subst h <;> decide
     rw [digitBytes]
     by_cases h : n < 10
-    · rw [if_pos h]; intro d hd; simp at hd; subst hd; exact one n h
+    · rw [if_pos h]; intro d hd; rw [List.mem_singleton.1 hd]; exact one n h
     · rw [if_neg h]; intro d hd
       rcases List.mem_append.1 hd with hd | hd
       · exact ih (n / 10) (by omega) d hd
-      · simp at hd; subst hd; exact one _ (by omega)
+      · rw [List.mem_singleton.1 hd]; exact one _ (by omega)
 
 theorem digitBytes_ne_nil (n : Nat) : digitBytes n ≠ [] := by
   rw [digitBytes]; split <;> simp
@@ -81,6 +81,17 @@ theorem digitBytes_ne_nil (n : Nat) : digitBytes n ≠ [] := by
 theorem toNat_digit (k : Nat) (hk : k < 10) : ((48 + k).toUInt8.toNat - 48 : Nat) = k := by
   have : k = 0 ∨ k = 1 ∨ k = 2 ∨ k = 3 ∨ k = 4 ∨ k = 5 ∨ k = 6 ∨ k = 7 ∨ k = 8 ∨ k = 9 := by omega
   rcases this with h | h | h | h | h | h | h | h | h | h <;> subst h <;> decide
+
+theorem digitsVal_nil (cnt : Int) : digitsVal cnt [] = cnt := rfl
+
+theorem digitsVal_cons (cnt : Int) (d : UInt8) (ds : List UInt8) :
+    digitsVal cnt (d :: ds) = digitsVal (wrapS64 (wrapS64 (cnt * 10) + (d.toNat - 48 : Nat))) ds := rfl
+
+/-- Go's `int` conversion is the identity on the non-negative half of its range.
+    (NB: never let `simp`/`rfl` unfold `wrapS64` on open terms: the kernel then peels the 2^63
+    literals in unary.) -/
+theorem wrapS64_id (x : Int) (h0 : 0 ≤ x) (h1 : x < 2 ^ 63) : wrapS64 x = x := by
+  unfold wrapS64; omega
 
 theorem digitsVal_append (cnt : Int) (l m : List UInt8) : digitsVal cnt (l ++ m) = digitsVal (digitsVal cnt l) m := by
   simp [digitsVal]
@@ -91,12 +102,13 @@ theorem digitsVal_digitBytes (n : Nat) (hn : n < 2 ^ 63) : digitsVal 0 (digitByt
   | ind n ih =>
     rw [digitBytes]
     by_cases h : n < 10
-    · rw [if_pos h]
-      simp only [digitsVal, List.foldl_cons, List.foldl_nil, toNat_digit n h]
-      unfold wrapS64; omega
-    · rw [if_neg h, digitsVal_append, ih (n / 10) (by omega) (by omega)]
-      simp only [digitsVal, List.foldl_cons, List.foldl_nil, toNat_digit (n % 10) (by omega)]
-      unfold wrapS64; omega
+    · rw [if_pos h, digitsVal_cons, digitsVal_nil, toNat_digit n h, wrapS64_id (0 * 10) (by omega) (by omega),
+        wrapS64_id _ (by omega) (by omega)]
+      omega
+    · rw [if_neg h, digitsVal_append, ih (n / 10) (by omega) (by omega), digitsVal_cons, digitsVal_nil,
+        toNat_digit (n % 10) (by omega), wrapS64_id (_ * 10) (by omega) (by omega),
+        wrapS64_id _ (by omega) (by omega)]
+      omega
 
 /-- the `Int` counters: a non-negative `Int` prints as its natural number. -/
 theorem bytesOf_intRepr (x : Int) (h : 0 ≤ x) : bytesOf (toString x) = digitBytes x.toNat := by
